@@ -238,10 +238,15 @@ func (t *dtr) block(b *ast.BlockStmt) string {
 }
 
 // assignment target: x, *p, x[i], x.dims / x.data of a tensor variable
-func (t *dtr) setTarget(lhs ast.Expr, rhs string) string {
+func (t *dtr) setTarget(lhs ast.Expr, rhs string) string { return t.setTargetD(lhs, rhs, false) }
+
+func (t *dtr) setTargetD(lhs ast.Expr, rhs string, define bool) string {
 	switch v := lhs.(type) {
 	case *ast.Ident:
 		if v.Name != "_" {
+			if define {
+				return "TDef " + q(v.Name) + " (" + rhs + ")"
+			}
 			return "TSet " + q(v.Name) + " (" + rhs + ")"
 		}
 	case *ast.StarExpr:
@@ -363,11 +368,11 @@ func (t *dtr) stmt(s ast.Stmt) (res string) {
 			for _, n := range vs.Names {
 				switch {
 				case tt == "int":
-					out = append(out, "TSet "+q(n.Name)+" (XInt 0)")
+					out = append(out, "TDef "+q(n.Name)+" (XInt 0)")
 				case strings.HasPrefix(tt, "[]"):
-					out = append(out, "TSet "+q(n.Name)+" XNilSlice")
+					out = append(out, "TDef "+q(n.Name)+" XNilSlice")
 				case tt == "any":
-					out = append(out, "TSet "+q(n.Name)+" XNilAny")
+					out = append(out, "TDef "+q(n.Name)+" XNilAny")
 				default:
 					t.fail("declaration: " + nodeText(s))
 				}
@@ -460,13 +465,17 @@ func (t *dtr) stmt(s ast.Stmt) (res string) {
 						if xs == nil {
 							t.fail("assignment target: " + nodeText(v.Lhs[0]))
 						}
-						return "TExt [" + strings.Join(xs, "; ") + "] " + q(nm) + " " + t.extArgs(c)
+						def := "false"
+						if v.Tok == token.DEFINE {
+							def = "true"
+						}
+						return "TExt " + def + " [" + strings.Join(xs, "; ") + "] " + q(nm) + " " + t.extArgs(c)
 					}
 				}
 				if id, ok := v.Lhs[0].(*ast.Ident); ok && v.Tok == token.DEFINE && t.isFloatExpr(v.Rhs[0]) {
 					t.floatVars[id.Name] = true
 				}
-				return t.setTarget(v.Lhs[0], t.expr(v.Rhs[0]))
+				return t.setTargetD(v.Lhs[0], t.expr(v.Rhs[0]), v.Tok == token.DEFINE)
 			}
 		}
 		t.fail("assignment: " + nodeText(s))
@@ -619,16 +628,16 @@ func emitData(repo, outV string) error {
 					switch {
 					case tt == "*CPUTensor":
 						t.tensorVars[n.Name] = true
-						prelude = append(prelude, "TSet "+q(n.Name+".dims")+" XNilSlice", "TSet "+q(n.Name+".data")+" XNilAny")
+						prelude = append(prelude, "TDef "+q(n.Name+".dims")+" XNilSlice", "TDef "+q(n.Name+".data")+" XNilAny")
 					case tt == "float64":
 						t.floatVars[n.Name] = true
-						prelude = append(prelude, "TSet "+q(n.Name)+" (XFLit 0 0)")
+						prelude = append(prelude, "TDef "+q(n.Name)+" (XFLit 0 0)")
 					case tt == "any":
-						prelude = append(prelude, "TSet "+q(n.Name)+" XNilAny")
+						prelude = append(prelude, "TDef "+q(n.Name)+" XNilAny")
 					case tt == "int":
-						prelude = append(prelude, "TSet "+q(n.Name)+" (XInt 0)")
+						prelude = append(prelude, "TDef "+q(n.Name)+" (XInt 0)")
 					case strings.HasPrefix(tt, "[]"):
-						prelude = append(prelude, "TSet "+q(n.Name)+" XNilSlice")
+						prelude = append(prelude, "TDef "+q(n.Name)+" XNilSlice")
 					}
 				}
 			}
@@ -660,6 +669,7 @@ func emitData(repo, outV string) error {
 			}
 			return true
 		})
+		writtenParams := computeWrittenParams(t.closures)
 		var locals []string
 		for name, fl := range t.closures {
 			var ps []string
@@ -697,6 +707,23 @@ func emitData(repo, outV string) error {
 				t.results = nil
 				body = t.block(fl.Body)
 				t.results = saved
+				// slice aliasing idiom:  X := (*p).([]any)  with p a pointer parameter, X never reassigned, elements of X
+				// written afterwards (X[i] = .. or &X[i] passed on) and p not mentioned again: in Go the writes are visible
+				// through *p because X shares its backing array and *p's slice header is unchanged.  Value semantics plus a
+				// write-back  *p = X  at the end of the closure is the same thing; any other use of such an alias is refused.
+				for x, pp := range ptrAliases(fl) {
+					switch aliasUseOK(fl, x, pp, writtenParams) {
+					case "":
+						if returnsAfterDef(fl, x) {
+							body = "TUnsupported " + q("alias "+x+" of *"+pp+" with a return after the alias was taken")
+						} else {
+							body = "tseq [" + body + ";\n      TSet " + q(pp) + " (XVar " + q(x) + ") (* write-back of the alias *)]"
+						}
+					case "readonly":
+					default:
+						body = "TUnsupported " + q("alias "+x+" of *"+pp+": "+aliasUseOK(fl, x, pp, writtenParams))
+					}
+				}
 			}
 			locals = append(locals, fmt.Sprintf("(%s, mkD [%s]\n      (%s))", q(name), strings.Join(ps, "; "), body))
 		}
@@ -715,4 +742,190 @@ func emitData(repo, outV string) error {
 		return os.WriteFile(outV, []byte(sb.String()), 0o644)
 	}
 	return nil
+}
+
+
+// variables defined as  X := (*p).([]any)  with p a pointer parameter of the closure
+func ptrAliases(fl *ast.FuncLit) map[string]string {
+	ptr := map[string]bool{}
+	for _, f := range fl.Type.Params.List {
+		if strings.HasPrefix(typeText(f.Type), "*") {
+			for _, n := range f.Names {
+				ptr[n.Name] = true
+			}
+		}
+	}
+	out := map[string]string{}
+	ast.Inspect(fl.Body, func(m ast.Node) bool {
+		as, ok := m.(*ast.AssignStmt)
+		if !ok || as.Tok != token.DEFINE || len(as.Lhs) != 1 || len(as.Rhs) != 1 {
+			return true
+		}
+		id, ok := as.Lhs[0].(*ast.Ident)
+		ta, ok2 := as.Rhs[0].(*ast.TypeAssertExpr)
+		if !ok || !ok2 || typeText(ta.Type) != "[]any" {
+			return true
+		}
+		x := ta.X
+		if pe, ok := x.(*ast.ParenExpr); ok {
+			x = pe.X
+		}
+		if st, ok := x.(*ast.StarExpr); ok {
+			if pid, ok := st.X.(*ast.Ident); ok && ptr[pid.Name] {
+				out[id.Name] = pid.Name
+			}
+		}
+		return true
+	})
+	return out
+}
+
+// which pointer parameters a closure writes through: *p = .., or elements of an alias X := (*p).([]any) assigned, or
+// &X[i] passed at a written position of a closure call (least fixpoint)
+func computeWrittenParams(closures map[string]*ast.FuncLit) map[string][]bool {
+	out := map[string][]bool{}
+	names := map[string][]string{}
+	for n, fl := range closures {
+		var ps []string
+		for _, f := range fl.Type.Params.List {
+			for _, nn := range f.Names {
+				ps = append(ps, nn.Name)
+			}
+		}
+		names[n] = ps
+		out[n] = make([]bool, len(ps))
+	}
+	for changed := true; changed; {
+		changed = false
+		for n, fl := range closures {
+			al := ptrAliases(fl)
+			mark := func(pname string) {
+				for k, pn := range names[n] {
+					if pn == pname && !out[n][k] {
+						out[n][k] = true
+						changed = true
+					}
+				}
+			}
+			ast.Inspect(fl.Body, func(m ast.Node) bool {
+				switch v := m.(type) {
+				case *ast.AssignStmt:
+					for _, l := range v.Lhs {
+						if st, ok := l.(*ast.StarExpr); ok {
+							if id, ok := st.X.(*ast.Ident); ok {
+								mark(id.Name)
+							}
+						}
+						if ix, ok := l.(*ast.IndexExpr); ok {
+							if id, ok := ix.X.(*ast.Ident); ok && al[id.Name] != "" {
+								mark(al[id.Name])
+							}
+						}
+					}
+				case *ast.CallExpr:
+					if id, ok := v.Fun.(*ast.Ident); ok && closures[id.Name] != nil {
+						for k, a := range v.Args {
+							if k < len(out[id.Name]) && out[id.Name][k] {
+								if r := rootOfRef(a); r != "" && al[r] != "" {
+									mark(al[r])
+								}
+							}
+						}
+					}
+				}
+				return true
+			})
+		}
+	}
+	return out
+}
+
+func returnsAfterDef(fl *ast.FuncLit, x string) bool {
+	after, bad := false, false
+	for _, st := range fl.Body.List {
+		if after {
+			ast.Inspect(st, func(m ast.Node) bool {
+				if _, ok := m.(*ast.ReturnStmt); ok {
+					bad = true
+				}
+				return true
+			})
+		}
+		if as, ok := st.(*ast.AssignStmt); ok && as.Tok == token.DEFINE && len(as.Lhs) == 1 {
+			if id, ok := as.Lhs[0].(*ast.Ident); ok && id.Name == x {
+				after = true
+			}
+		}
+	}
+	return bad
+}
+
+// "" = elements of x are written and the write-back is sound; "readonly" = x is only read; otherwise the reason to refuse
+func aliasUseOK(fl *ast.FuncLit, x, p string, written map[string][]bool) string {
+	w := writesTo(fl.Body, x)
+	// &x[i] passed at a position the callee writes through counts as a write
+	ast.Inspect(fl.Body, func(m ast.Node) bool {
+		if c, ok := m.(*ast.CallExpr); ok {
+			if id, ok := c.Fun.(*ast.Ident); ok && written[id.Name] != nil {
+				for k, a := range c.Args {
+					if rootOfRef(a) == x && k < len(written[id.Name]) && written[id.Name][k] {
+						w = true
+					}
+				}
+			}
+		}
+		return true
+	})
+	written2 := w
+	if !written2 {
+		return "readonly"
+	}
+	defs, puses := 0, 0
+	reassigned := false
+	ast.Inspect(fl.Body, func(m ast.Node) bool {
+		switch v := m.(type) {
+		case *ast.AssignStmt:
+			for _, l := range v.Lhs {
+				if id, ok := l.(*ast.Ident); ok && id.Name == x {
+					if v.Tok == token.DEFINE {
+						defs++
+					} else {
+						reassigned = true
+					}
+				}
+			}
+		case *ast.Ident:
+			if v.Name == p {
+				puses++
+			}
+		}
+		return true
+	})
+	if defs != 1 || reassigned {
+		return "the alias is reassigned"
+	}
+	// p may be mentioned in the base case (*p = ..., (*p).(float64)) and in the alias definition; a conservative
+	// syntactic bound: it must not occur after the alias definition
+	after := false
+	bad := false
+	for _, st := range fl.Body.List {
+		if after {
+			ast.Inspect(st, func(m ast.Node) bool {
+				if id, ok := m.(*ast.Ident); ok && id.Name == p {
+					bad = true
+				}
+				return true
+			})
+		}
+		if as, ok := st.(*ast.AssignStmt); ok && as.Tok == token.DEFINE && len(as.Lhs) == 1 {
+			if id, ok := as.Lhs[0].(*ast.Ident); ok && id.Name == x {
+				after = true
+			}
+		}
+	}
+	_ = puses
+	if bad {
+		return "the pointer is used again after the alias was taken"
+	}
+	return ""
 }
